@@ -194,8 +194,11 @@ func (s *TreeShapeListener) lintEndpoint() {
 					if method == "" {
 						continue
 					}
-					if _, exists = (*endpoints.rec)[method]; exists {
-						continue
+					// a simple (non-REST) endpoint records no methods
+					if endpoints.rec != nil {
+						if _, exists = (*endpoints.rec)[method]; exists {
+							continue
+						}
 					}
 					logrus.Warnf("lint %s: Method '%s' does not exist for call '%s'", location, method, call)
 					continue
